@@ -488,12 +488,21 @@ class FileSystem(SimComponent):
         """
         file = self.get_file(folder_name=src_folder_name, file_name=src_file_name)
         if file:
-            # remove file from src
-            self.delete_file(folder_name=file.folder_name, file_name=file.name)
+            src_folder = self.get_folder(folder_name=src_folder_name)
             dst_folder = self.get_folder(folder_name=dst_folder_name)
             if not dst_folder:
                 dst_folder = self.create_folder(dst_folder_name)
+            if dst_folder.get_file(file.name) is not None:
+                # also covers a move within one folder: the file stays where it is
+                self.sys_log.error(f"Unable to move file. {file.name} already exists in {dst_folder_name}.")
+                return
+            # remove file from src: the file moves, it is not left behind among the deleted files
+            src_folder.files.pop(file.uuid)
+            file.num_access += 1
+            self.num_file_deletions += 1
             # add file to dst
+            file.folder_id = dst_folder.uuid
+            file.folder_name = dst_folder.name
             dst_folder.add_file(file)
             self.num_file_creations += 1
 
